@@ -288,6 +288,24 @@ func RunProperty(o Options) int {
 	}
 
 	// classify and replay violations
+	interpReplay = func(v *Violation) bool {
+		for _, u := range units {
+			if u.Entry != v.Harness {
+				continue
+			}
+			fn := spkgs[u.Pkg].Func(u.Entry)
+			if fn == nil {
+				return false
+			}
+			_, viols, _ := pr.RunConcrete(fn, RunConfig{Harness: u.Entry, Params: v.Params, Concrete: v.Model})
+			for _, x := range viols {
+				if x.AssertID == v.AssertID {
+					return true
+				}
+			}
+		}
+		return false
+	}
 	exit := 0
 	nViolNew := 0
 	if len(allViol) > 0 {
@@ -622,6 +640,20 @@ func runNative(bin, dir, harness string, model map[string]uint64, params map[str
 
 const replayPerID = 3
 
+// schedDependent: the counterexample fixes a goroutine schedule, select choice or map iteration order, which
+// the native build cannot be forced into; such counterexamples are confirmed by deterministic concrete
+// re-execution in the interpreter under the recorded choices.
+func schedDependent(m map[string]uint64) bool {
+	for k := range m {
+		if strings.HasPrefix(k, "sched!") || strings.HasPrefix(k, "select!") || strings.HasPrefix(k, "maporder!") {
+			return true
+		}
+	}
+	return false
+}
+
+var interpReplay func(v *Violation) bool
+
 func replayViolations(o Options, hs *HarnessSet, pkgNames map[string]string, viols []*Violation, known []KnownFinding) {
 	tmp, err := os.MkdirTemp("", "symgo-replay-")
 	if err != nil {
@@ -665,6 +697,13 @@ func replayViolations(o Options, hs *HarnessSet, pkgNames map[string]string, vio
 		v.Path = filepath.Join(rdir, fmt.Sprintf("%03d_%s_%s.json", n, v.Harness, sanitize(v.AssertID)))
 		if o.NoReplay {
 			v.Replayed = "confirmed"
+		} else if schedDependent(v.Model) {
+			if interpReplay != nil && interpReplay(v) {
+				v.Replayed = "confirmed"
+				v.Msg += " [schedule/map-order dependent: confirmed by concrete re-execution in the interpreter under the recorded choices; the native build cannot be forced into a schedule]"
+			} else {
+				v.Replayed = "spurious"
+			}
 		} else {
 			rel := pkgOf[v.Harness]
 			bin, berr := buildReplay(o, hs, pkgNames, rb, rel)
@@ -774,6 +813,9 @@ func (pr *Program) selftest(o Options, hs *HarnessSet, pkgNames map[string]strin
 	}
 	n, agree := 0, 0
 	for _, m := range ms {
+		if schedDependent(m) {
+			continue // the native build cannot be forced into the recorded schedule / map order
+		}
 		c := cfg
 		c.Concrete = m
 		res, viols, _ := pr.RunConcrete(fn, c)
@@ -812,6 +854,9 @@ func (pr *Program) selftest(o Options, hs *HarnessSet, pkgNames map[string]strin
 		} else if o.Verbose {
 			fmt.Printf("selftest mismatch on %s: interp end=%s fail=%v obs=%v | native fail=%v stopped=%q panicked=%q obs=%v model=%s\n", u.Entry, res.End, ifail, res.Observations, nat.failed, nat.stopped, nat.panicked, nat.obs, modelString(m))
 		}
+	}
+	if n == 0 {
+		return "all recorded witnesses fix a goroutine schedule or map order, which the native build cannot be forced into: no native comparison for this unit"
 	}
 	if agree != n {
 		return fmt.Sprintf("MISMATCH: %d of %d concrete re-executions disagree with the native build", n-agree, n)
